@@ -153,7 +153,7 @@ fn check_case(hist: &[usize], n: usize, s: usize, exact: bool, agg: Agg, timesta
 
 fn build(tier: Tier) -> Vec<Scenario> {
     let maxlen = match tier {
-        Tier::Quick => 9,
+        Tier::Quick => 10,
         Tier::Thorough => 12,
     };
     let mut out = vec![];
@@ -170,6 +170,7 @@ fn build(tier: Tier) -> Vec<Scenario> {
                     (Agg::Max, false),
                 ] {
                     let len = if agg == Agg::Collect { maxlen } else { maxlen - 2 };
+                    // (thorough: the full length only for the collecting aggregator)
                     let name = format!("C12/N{n}-S{s}-exact{exact}-{agg:?}-ts{ts}-len{len}");
                     out.push(loop_scenario(
                         name.clone(),
